@@ -148,6 +148,15 @@ void OPNMIDIplay::applySetup()
         chipType = m_setup.chipType;
 
     synth.reset(m_setup.emulator, m_setup.PCM_RATE, static_cast<OPNFamily>(chipType), this);
+    // The chip-channel table is rebuilt (and the banks may have been replaced):
+    // forget the notes that still refer to the old channels and instruments
+    for(size_t c = 0; c < m_midiChannels.size(); ++c)
+    {
+        MIDIchannel &ch = m_midiChannels[c];
+        ch.activenotes.clear();
+        ch.gliding_note_count = 0;
+        ch.extended_note_count = 0;
+    }
     m_chipChannels.clear();
     m_chipChannels.resize(synth.m_numChannels, OpnChannel());
     resetMIDIDefaults();
@@ -169,6 +178,15 @@ void OPNMIDIplay::partialReset()
     m_setup.tick_skip_samples_delay = 0;
     synth.m_runAtPcmRate = m_setup.runAtPcmRate;
     synth.reset(m_setup.emulator, m_setup.PCM_RATE, synth.chipFamily(), this);
+    // realTime_panic() defers the release of young percussion notes:
+    // forget whatever still refers to the channels that are rebuilt below
+    for(size_t c = 0; c < m_midiChannels.size(); ++c)
+    {
+        MIDIchannel &ch = m_midiChannels[c];
+        ch.activenotes.clear();
+        ch.gliding_note_count = 0;
+        ch.extended_note_count = 0;
+    }
     m_chipChannels.clear();
     m_chipChannels.resize(synth.m_numChannels);
     resetMIDIDefaults();
